@@ -229,14 +229,19 @@ def cir_moments(ctx: Ctx, recs: List[Dict[str, Any]]) -> None:
     r3, r2 = math.sqrt(3.0), math.sqrt(2.0)
     zn, zw = [-r3, 0.0, r3], [1 / 6, 2 / 3, 1 / 6]
     yn, yw = [2 - r2, 2 + r2], [(2 + r2) / 4, (2 - r2) / 4]
-    for r in recs:
+    # The CIR process is scale-covariant (X -> cX with theta -> c theta, sigma^2 -> c sigma^2; psi is unchanged): every record is
+    # replayed at its own level and at the level 2^-40 times it (a variance or rate of 1e-13 - far below machine epsilon, far
+    # above the smallest normal number), where the conditional mean scales by c and the variance by c^2 exactly.
+    for r, sc in ((r_, sc_) for r_ in recs for sc_ in (0, -40)):
+        c_ = 2.0 ** sc
         th, ka, sg2, E, v = (frf(r[k]) for k in ("theta", "kappa", "sigma2", "E", "v"))
-        m, s2, psi = frf(r["m"]), frf(r["s2"]), frf(r["psi"])
-        sigma = math.sqrt(sg2)
+        m, s2, psi = frf(r["m"]) * c_, frf(r["s2"]) * c_ * c_, frf(r["psi"])
+        th, v = th * c_, v * c_
+        sigma = math.sqrt(sg2) * 2.0 ** (sc // 2)
         # a float64 tensor: Python-float parameters are converted through the default dtype (float32) inside the generators,
         # which would move exp(-kappa dt) by 1e-8 (theta, kappa, sigma are dyadic and survive that conversion exactly)
         dt = torch.tensor(-math.log(E) / ka, dtype=DT)
-        detail = {"theta": th, "kappa": ka, "sigma": sigma, "dt": float(dt), "exp(-kappa dt)": E, "from": v, "branch": r["branch"], "psi": psi,
+        detail = {"level_scale": f"2^{sc}", "theta": th, "kappa": ka, "sigma": sigma, "dt": float(dt), "exp(-kappa dt)": E, "from": v, "branch": r["branch"], "psi": psi,
                   "conditional_mean": m, "conditional_variance": s2}
         # Both kinds of node are supplied at once (3 normals x 2 uniforms, then three probes around the atom), and the branch the
         # code took is read off its output: any switching level in [1, 2] is a correct scheme, so the record's branch (the
@@ -270,7 +275,7 @@ def cir_moments(ctx: Ctx, recs: List[Dict[str, Any]]) -> None:
             mean = float((w * vals).sum())
             var = float((w * vals * vals).sum()) - mean * mean
             d = {**detail, "generator": gen, "branch_taken": took, "one_step_values": V.tolist(), "observed_mean": mean, "observed_variance": var}
-            if not bool(V.isfinite().all()) or not (abs(mean - m) <= 1e-9 * (abs(m) + 1e-12)):
+            if not bool(V.isfinite().all()) or not (abs(mean - m) <= 1e-9 * (abs(m) + 1e-12 * c_)):
                 ctx.violation(f"cir:{took}:mean", f"one {took} step of the CIR scheme does not have the mean-reverting conditional mean theta + (v - theta) exp(-kappa dt)", d)
             elif not (abs(var - s2) <= 1e-8 * (s2 + 1e-12 * m * m)):
                 ctx.violation(f"cir:{took}:variance", f"one {took} step of the CIR scheme does not have the conditional variance of the CIR process", d)
